@@ -308,6 +308,6 @@ Qed.
 Lemma matches_pattern_total v p word :
   exists b, matches_pattern lowercase regex_fits v p word = Some (Ok b).
 Proof.
-  unfold matches_pattern. destruct word; [|now eexists]. apply matches_word_total. lia.
+  clear lowercase_wf. unfold matches_pattern. destruct word; [|now eexists]. apply matches_word_total. lia.
 Qed.
 End MatchesPattern.
